@@ -163,6 +163,8 @@ func parseHeader(h []byte) (hlen, plen int, ok bool) {
 type Hooks struct {
 	// BeforeWrite is called (outside vnet's lock) before each Write; it may park the caller.
 	BeforeWrite func(l *Link, d Dir, p []byte)
+	// BeforeDial is called before each dial; it may park the caller.
+	BeforeDial func(addr string)
 	// Now returns the virtual time for log entries.
 	Now func() time.Duration
 }
@@ -278,6 +280,9 @@ func (l *Listener) Addr() net.Addr { return addr(l.a) }
 
 // Dial connects to a listener.
 func (n *Net) Dial(a string) (net.Conn, error) {
+	if h := n.hooks.BeforeDial; h != nil {
+		h(a)
+	}
 	n.mu.Lock()
 	if n.closed {
 		n.mu.Unlock()
